@@ -57,11 +57,17 @@ def process_signature(app, what, name, obj, options,
             # slot wrappers and method descriptors of extension types
             # refuse to be bound to a plain object (TypeError)
             obj = _util.safe_get(obj, object(), type(parent))
-        sig = specifiers.signature(obj).evaluated()
+        found = specifiers.signature(obj)
     except (TypeError, ValueError):
         # inspect.signature raises ValueError if obj is callable but it can't
         # determine a signature, eg. built-in objects
         return sig, return_annotation
+    try:
+        sig = found.evaluated()
+    except Exception:
+        # annotations that cannot be evaluated, eg. names that are only
+        # imported for type checkers: show them as they are written
+        sig = found
     ret_annot = sig.return_annotation
     if ret_annot != sig.empty:
         sret_annot = '{0!r}'.format(ret_annot)
